@@ -19,6 +19,7 @@
 #include <tlx/die.hpp>
 
 #include <algorithm>
+#include <deque>
 #include <memory>
 #include <set>
 
@@ -163,7 +164,22 @@ void run(const Workload& w, Result& res, bool tracked) {
                 if (Greater) std::reverse(keys.begin(), keys.end());
                 std::vector<typename C::value_type> vals;
                 for (int kk : keys) vals.push_back(V::make(kk, payload++));
-                t[i]->bulk_load(vals.begin(), vals.end());
+                // the source range: a vector, a deque whose first element sits in another block (not contiguous),
+                // or reverse iterators over a reversed vector (backwards in memory)
+                switch (k % 3) {
+                case 1: {
+                    std::deque<typename C::value_type> dq;
+                    for (size_t q = 0; q < vals.size(); ++q) { if (q == 0) dq.push_front(vals[q]); else dq.push_back(vals[q]); }
+                    t[i]->bulk_load(dq.begin(), dq.end());
+                    res.probe("bulk_load_from_deque");
+                    break; }
+                case 2: {
+                    std::vector<typename C::value_type> rv(vals.rbegin(), vals.rend());
+                    t[i]->bulk_load(rv.rbegin(), rv.rend());
+                    res.probe("bulk_load_from_reverse_iterators");
+                    break; }
+                default: t[i]->bulk_load(vals.begin(), vals.end()); break;
+                }
                 for (int kk : keys) shadow[i].insert(kk);
                 res.probe("bulk_load_keys", uint64_t(n));
                 break;
